@@ -120,7 +120,8 @@ def dcmstack_round(rep, r, tier, tmp):
     n = 8 if tier == 'quick' else 120
     for ci in range(n):
         src = os.path.join(tmp, 'src%d' % ci)
-        write_series_dir(r, tier, src)
+        sers = write_series_dir(r, tier, src)
+        sdesc = [{k: v for k, v in s_.items() if k not in ('files', 'patterns')} for s_ in sers]
         seq = [gen_opts(r) for _ in range(r.randint(2, 4))]
         # a leak needs an option in an earlier invocation that a later one does not give
         if all('excl' not in o for o in seq[:-1]):
@@ -137,7 +138,7 @@ def dcmstack_round(rep, r, tier, tmp):
             rc1, _ = run_cli_inproc(argv_of(src, d_in, opts))
             rc2, _ = run_cli_fresh(argv_of(src, d_fr, opts))
             a, b = digest_dir(d_in), digest_dir(d_fr)
-            case = {'suite': 'cli', 'sequence': seq[:ii + 1], 'invocation': ii}
+            case = {'suite': 'cli', 'sequence': seq[:ii + 1], 'invocation': ii, 'series': sdesc}
             if rc1 != 0 or rc2 != 0:
                 rep.failure('dcmstack exited with %s (in-process) / %s (fresh process)' % (rc1, rc2), dict(case, tag='cli:dcmstack:rc'))
                 continue
@@ -180,7 +181,9 @@ def names_round(rep, r, tier, tmp):
     """output names are unique: groups whose natural names collide, including one that already ends
     in the uniqueness suffix"""
     import nibabel as nb
-    lists = [['x-002', 'x', 'x'], ['x', 'x', 'x'], ['a', 'a-001', 'a'], ['p-001', 'p', 'p', 'p'], ['q-003', 'q-002', 'q', 'q', 'q']]
+    lists = [['x-002', 'x', 'x'], ['x', 'x', 'x'], ['a', 'a-001', 'a'], ['p-001', 'p', 'p', 'p'], ['q-003', 'q-002', 'q', 'q', 'q'],
+             # names that differ only in characters the path sanitiser replaces
+             ['T2 tse', 'T2_tse'], ['a/b', 'a_b', 'a b'], ['m:1', 'm_1', 'm_1-001']]
     for ci in range(len(lists) if tier == 'quick' else 30):
         src = os.path.join(tmp, 'names%d' % ci)
         os.makedirs(src)
